@@ -907,9 +907,13 @@ func (vc *VC) modsOfCall(x ssa.CallInstruction, ms *modSet, depth int, fr *Frame
 	}
 	if name == "" && !c.IsInvoke() {
 		name = "dynamic:" + typeKey(c.Value.Type())
-		if vc.DB.Funcs[name] == nil {
+		if vc.DB.Funcs[name+" in "+QualName(x.Parent())] != nil {
+			name = name + " in " + QualName(x.Parent())
+		} else if vc.DB.Funcs[name] == nil {
 			name = ""
 		}
+	} else if name != "" && vc.DB.Funcs[name+" in "+QualName(x.Parent())] != nil {
+		name = name + " in " + QualName(x.Parent())
 	}
 	if name == "" {
 		if os.Getenv("GOVC_DEBUG_MODS") != "" {
@@ -1004,8 +1008,11 @@ func (vc *VC) modsOfCall(x ssa.CallInstruction, ms *modSet, depth int, fr *Frame
 // escapeArgs marks the backing arrays of slice-typed arguments as handed out.
 func (fr *Frame) escapeArgs(c *ssa.CallCommon, st *State) {
 	for _, a := range c.Args {
-		if _, ok := a.Type().Underlying().(*types.Slice); ok {
+		switch a.Type().Underlying().(type) {
+		case *types.Slice:
 			fr.vc.markEscaped(st, fr.val(a))
+		case *types.Pointer:
+			fr.vc.markEscapedRef(st, fr.val(a))
 		}
 	}
 }
